@@ -59,15 +59,20 @@ def strategy(tier):
     )
     rs = reaction_strategy(**kw)
 
-    def force_pc(r):
+    def force_pc(args):
+        r, twin = args
         # at least one parity-conserving node per topology; mostly all of them
         for td in r["topos"]:
             if not any(td["pc"]):
                 td["pc"][0] = True
+        if twin and r["n"] == 4:
+            # X -> R R with R -> F0 F1 twice: the same two-body decay occurs at two nodes of a chain
+            r = dict(r, twin=True)
+            r["final"] = [dict(fd, m=max(fd["m"], 0.135) if fd["s2"] >= 2 else fd["m"]) for fd in r["final"]]
         return r
 
     return st.fixed_dictionaries({
-        "reaction": rs.map(force_pc),
+        "reaction": st.tuples(rs, st.sampled_from([False, False, True])).map(force_pc),
         "all_pc": st.booleans(),
         "parent_hel": st.sampled_from([False, False, True]),
         "child_hel": st.sampled_from([True, True, True, False]),
@@ -145,50 +150,73 @@ def run_case(desc) -> Result:  # noqa: C901, PLR0911, PLR0912, PLR0914, PLR0915
 
     transitions = list(reaction_h.transitions)
     naming = prep_h.builder.naming
-    comp_names = ["A_{" + under_test("generate_amplitude_name", naming.generate_amplitude_name, t) + "}" for t in transitions]
+    if ref.identical_groups(transitions[0]):
+        labels.append("identical_particles(twin_resonances)")
+
+    def name_of(t):
+        return "A_{" + under_test("generate_amplitude_name", naming.generate_amplitude_name, t) + "}"
+
+    comp_names = [name_of(t) for t in transitions]
     missing = [n for n in comp_names if n not in model_h.components]
     if missing:
         return violation("component_missing", True, labels, names=missing[:3])
-    comps = [model_h.components[n] for n in comp_names]
-    coeff_of = []
-    for n, c in zip(comp_names, comps):
+    # chains that carry the same component name (symmetrised copies: names contain no edge ids)
+    candidates: dict[str, list] = {}
+    for t in transitions:
+        for c in ref.symmetrized_copies(t):
+            nm = name_of(c)
+            if all(c != other for other in candidates.setdefault(nm, [])):
+                candidates[nm].append(c)
+    unique_names = sorted(set(comp_names))
+    comps = [model_h.components[n] for n in unique_names]
+    coeff_by_name = {}
+    for n, c in zip(unique_names, comps):
         syms = sorted((x for x in c.free_symbols if x.name.startswith("C_")), key=str)
         if len(syms) != 1:
             return violation("coefficient_symbols", True, labels, component=n, got=[x.name for x in syms])
-        coeff_of.append(syms[0])
+        coeff_by_name[n] = syms[0]
+    coeff_of = [coeff_by_name[n] for n in comp_names]
 
     # numeric values: angles random, helicity coefficients 1 (to read off sigma_t * B_t)
     all_syms = set()
     for c in comps:
         all_syms |= c.free_symbols
-    for t in transitions:
-        for node in t.topology.nodes:
-            for nm in ref.angle_names(t.topology, children_of(t.topology, node)[0]):
-                all_syms.add(sp.Symbol(nm, real=True))
+    for chains in candidates.values():
+        for t in chains:
+            for node in t.topology.nodes:
+                for nm in ref.angle_names(t.topology, children_of(t.topology, node)[0]):
+                    all_syms.add(sp.Symbol(nm, real=True))
     values = {s.name: v for s, v in draw_values(all_syms, rng, n_points).items()}
     ones = dict(values)
     for s in set(coeff_of):
         ones[s.name] = np.ones(n_points, dtype=complex)
-    comp_vals = under_test("evaluate_components", _evaluate, model_h, comps, ones, n_points)
+    comp_vals = dict(zip(unique_names, under_test("evaluate_components", _evaluate, model_h, comps, ones, n_points)))
 
     def pv(k):
         return {name: (v[k] if np.ndim(v) else v) for name, v in values.items()}
 
-    b_ref = np.array([[ref.chain_amplitude(t, pv(k), False) for k in range(n_points)] for t in transitions])
-    sigma = np.ones(len(transitions))
-    for i, t in enumerate(transitions):
-        want = b_ref[i]
-        got = comp_vals[i]
-        scale = np.maximum(1.0, np.abs(want))
-        if np.all(np.abs(got - want) <= TOL * scale):
-            sigma[i] = 1.0
-        elif np.all(np.abs(got + want) <= TOL * scale):
-            sigma[i] = -1.0
-        else:
-            return violation("chain_amplitude_differs", True, labels, component=comp_names[i],
+    sigma_by_name = {}
+    for n in unique_names:
+        got = comp_vals[n]
+        verdict = None
+        for chain in candidates[n]:
+            want = np.array([ref.chain_amplitude(chain, pv(k), False) for k in range(n_points)])
+            scale = np.maximum(1.0, np.abs(want))
+            if float(np.max(np.abs(want))) < 1e-9 and float(np.max(np.abs(got))) < 1e-9:
+                verdict = 0.0  # sign undetermined (vanishing chain at all points)
+                break
+            if np.all(np.abs(got - want) <= TOL * scale):
+                verdict = 1.0
+                break
+            if np.all(np.abs(got + want) <= TOL * scale):
+                verdict = -1.0
+                break
+        if verdict is None:
+            want = np.array([ref.chain_amplitude(candidates[n][0], pv(k), False) for k in range(n_points)])
+            return violation("chain_amplitude_differs", True, labels, component=n, n_chains_with_this_name=len(candidates[n]),
                              got=[complex(x) for x in got], want=[complex(x) for x in want])
-        if float(np.max(np.abs(want))) < 1e-9:
-            sigma[i] = 0.0  # sign undetermined (vanishing chain at all points)
+        sigma_by_name[n] = verdict
+    sigma = np.array([sigma_by_name[n] for n in comp_names])
 
     # ---- oracle 1: pairwise sign relation --------------------------------------------------
     by_symbol: dict = {}
@@ -254,6 +282,11 @@ def run_case(desc) -> Result:  # noqa: C901, PLR0911, PLR0912, PLR0914, PLR0915
         labels.append("single_node_flip_pairs")
     if not desc["child_hel"]:
         return ok(False, labels, n_pairs=n_pairs)
+    if ref.identical_groups(transitions[0]):
+        # identical resonances: exchange symmetry restricts the allowed (L, S) of X -> R R, which the
+        # generator does not impose, so arbitrary LS couplings are not a physical canonical model;
+        # the repeated sub-decay is what these cases are for (pairwise oracle above)
+        return ok(nontrivial, [*labels, "differential_skipped:identical_resonances"], n_pairs=n_pairs, n_single_flip=n_single_flip)
 
     # ---- oracle 2: differential helicity <-> canonical ----------------------------------------
     rdesc_c = dict(built_h.desc)
@@ -350,6 +383,15 @@ def run_case(desc) -> Result:  # noqa: C901, PLR0911, PLR0912, PLR0914, PLR0915
     (ih,) = under_test("evaluate_h", _evaluate, model_h, [expr_h], values_h, n_points)
     (ic,) = under_test("evaluate_c", _evaluate, model_c, [expr_c], values_c, n_points)
     scale = np.maximum(1.0, np.abs(ic))
+    import os  # noqa: PLC0415
+
+    if os.environ.get("VP_C03_DEBUG"):
+        keys = [k for k in model_h.amplitudes if k in model_c.amplitudes]
+        ah = _evaluate(model_h, [model_h.amplitudes[k] for k in keys], values_h, n_points)
+        ac = _evaluate(model_c, [model_c.amplitudes[k] for k in keys], values_c, n_points)
+        for k, x, y in zip(keys, ah, ac):
+            print("AMP", k, complex(x[0]), complex(y[0]), "DIFF" if abs(x[0] - y[0]) > 1e-9 else "")
+        print("REQUIRED", {str(k): v for k, v in required.items()})
     if not np.all(np.abs(ih - ic) <= 1e-8 * scale):
         return violation(
             "helicity_and_canonical_intensities_differ", True, labels,
